@@ -3,6 +3,7 @@ package vuego
 import (
 	"fmt"
 	"reflect"
+	"sort"
 	"strconv"
 	"strings"
 	"sync"
@@ -343,7 +344,9 @@ func (s *Stack) ForEach(expr string, fn func(index int, value any) error) error 
 		}
 		return nil
 	case reflect.Map:
+		// in key order, so that the same data renders the same output every time
 		keys := rv.MapKeys()
+		sortMapKeys(keys)
 		for i, key := range keys {
 			if err := fn(i, rv.MapIndex(key).Interface()); err != nil {
 				return err
@@ -354,6 +357,27 @@ func (s *Stack) ForEach(expr string, fn func(index int, value any) error) error 
 
 	return nil
 	// return fmt.Errorf("unsupported collection type: %T, expr: %s", v, expr)
+}
+
+// sortMapKeys orders map keys: strings lexically, numbers numerically, anything else by its
+// printed form.
+func sortMapKeys(keys []reflect.Value) {
+	sort.SliceStable(keys, func(a, b int) bool {
+		ka, kb := keys[a], keys[b]
+		if ka.Kind() == kb.Kind() {
+			switch ka.Kind() {
+			case reflect.String:
+				return ka.String() < kb.String()
+			case reflect.Int, reflect.Int8, reflect.Int16, reflect.Int32, reflect.Int64:
+				return ka.Int() < kb.Int()
+			case reflect.Uint, reflect.Uint8, reflect.Uint16, reflect.Uint32, reflect.Uint64, reflect.Uintptr:
+				return ka.Uint() < kb.Uint()
+			case reflect.Float32, reflect.Float64:
+				return ka.Float() < kb.Float()
+			}
+		}
+		return fmt.Sprint(ka.Interface()) < fmt.Sprint(kb.Interface())
+	})
 }
 
 // Helpers
